@@ -15,51 +15,12 @@
    Model/C18.v (the sorter, the default deriver declarations, _apply_view_derivers). *)
 From Coq Require Import List NArith ZArith Bool.
 Import ListNotations.
-Require Import Verif.Lib.Wire Verif.Gen.Facts_C03 Verif.Model.C03 Verif.Gen.Facts_C05.
-Require Verif.Gen.Facts_C18 Verif.Model.C18.
+Require Import Verif.Lib.Wire Verif.Gen.Facts_C03 Verif.Model.C03.
+Require Export Verif.Model.C05_base.
+Require Import Verif.Gen.Facts_C05.
+Require Verif.Gen.Facts_C18 Verif.Model.C18_base Verif.Model.C18.
 Local Close Scope N_scope.
 Local Open Scope nat_scope.
-
-(* ------------------------------------------------------------------ *)
-(* exceptions, contexts, events *)
-
-Inductive exc := EForbidden | ENotFound | EPredMismatch | EValueError | EBoom | ECsrf.   (* ECsrf: BadCSRFToken (HTTPBadRequest) *)
-Definition exc_eqb (a b : exc) : bool :=
-  match a, b with
-  | EForbidden, EForbidden | ENotFound, ENotFound | EPredMismatch, EPredMismatch
-  | EValueError, EValueError | EBoom, EBoom | ECsrf, ECsrf => true
-  | _, _ => false
-  end.
-
-(* the object a view is called with: a resource of the tree, or the exception being rendered *)
-Inductive ctx := CRes (n : N) | CExc (e : exc).
-Definition ctx_eqb (a b : ctx) : bool :=
-  match a, b with
-  | CRes x, CRes y => N.eqb x y
-  | CExc x, CExc y => exc_eqb x y
-  | _, _ => false
-  end.
-Definition is_exc_ctx (c : ctx) : bool := match c with CExc _ => true | CRes _ => false end.
-
-Inductive behave := BReturn | BRaise (e : exc).
-
-Inductive event :=
-| Permits (p : text) (c : ctx) (b : bool)     (* policy.permits(request, c, p) was called and answered b (truthiness) *)
-| Deco (t : N) (c : ctx)                      (* the decorator= of view t was entered *)
-| Body (t : N) (c : ctx)                      (* the view callable of t started to execute *)
-| Raised (e : exc).                           (* the main handler raised e into the exception-view tween *)
-Definition trace := list event.
-
-Definition event_eqb (a b : event) : bool :=
-  match a, b with
-  | Permits p c x, Permits q d y => text_eqb p q && ctx_eqb c d && Bool.eqb x y
-  | Deco t c, Deco u d => N.eqb t u && ctx_eqb c d
-  | Body t c, Body u d => N.eqb t u && ctx_eqb c d
-  | Raised e, Raised f => exc_eqb e f
-  | _, _ => false
-  end.
-
-Inductive res := Ret (t : N) | Raise (e : exc) | NoView | Stuck.   (* Stuck: fuel exhausted / dangling tag (unreachable) *)
 
 (* ------------------------------------------------------------------ *)
 (* _secured_view: which permission the wrapper closes over (lines 296-313, statement by statement) *)
@@ -113,10 +74,10 @@ Definition nm_call_permissive : text := [95; 95; 99; 97; 108; 108; 95; 112; 101;
 Definition nm_secured_inner : text := [95; 115; 101; 99; 117; 114; 101; 100; 95; 118; 105; 101; 119]%N.   (* "_secured_view" *)
 
 (* _apply_view_derivers over the default declarations, computed by C18's sorter: names outermost first *)
-Fixpoint handler_names (h : C18.handler) : list text :=
-  match h with C18.Base => [] | C18.Wrap n _ i => n :: handler_names i end.
+Fixpoint handler_names (h : C18_base.handler) : list text :=
+  match h with C18_base.Base => [] | C18_base.Wrap n _ i => n :: handler_names i end.
 Definition deriver_names : list text :=
-  match C18.apply_view_derivers C18.default_derivers C18.Base with
+  match C18.apply_view_derivers C18.default_derivers C18_base.Base with
   | inr h => handler_names h
   | inl _ => []
   end.
@@ -151,10 +112,6 @@ Definition exc_index (e : exc) : nat :=
   match e with EForbidden => 0 | ENotFound => 1 | EPredMismatch => 2 | EValueError => 3 | EBoom => 4 | ECsrf => 5 end.
 Definition sro_of (q : rq5) (c : ctx) : list N :=
   match c with CRes _ => q_res_sro q | CExc e => nth (exc_index e) (q_exc_sro q) [] end.
-
-Definition grants := list (text * ctx).     (* the decision table: listed pairs are granted, all others refused *)
-Definition granted (tb : grants) (p : text) (c : ctx) : bool :=
-  existsb (fun pc => text_eqb (fst pc) p && ctx_eqb (snd pc) c) tb.
 
 Fixpoint assocN {B} (k : N) (l : list (N * B)) : option B :=
   match l with [] => None | (k', v) :: r => if N.eqb k k' then Some v else assocN k r end.
@@ -365,6 +322,100 @@ Section Call.
     | Stuck => (tr, FStuck)
     end.
 End Call.
+
+(* ------------------------------------------------------------------ *)
+(* interpretation of the parameters of the REGENERATED definitions (Gen/Facts_C05.v, harness/c05/translate.py):
+   what the table's leaves stand for in this model *)
+(* getattr(view_callable, '__call_permissive__', None): present on a secured single view and on every MultiView *)
+Definition pc_of (D : list (N * dview)) (cmp : component) : option component :=
+  match cmp with
+  | CView v => match assocN (r_tag v) D with
+               | Some d => if is_some (d_perm d) then Some cmp else None
+               | None => None
+               end
+  | CMulti _ => Some cmp
+  end.
+(* getattr(view_callable, '__predicated__', None): present on a single view that has predicates *)
+Definition pr_of (D : list (N * dview)) (cmp : component) : option dview :=
+  match cmp with
+  | CView v => match assocN (r_tag v) D with
+               | Some d => match r_preds (d_reg d) with [] => None | _ => Some d end
+               | None => None
+               end
+  | CMulti _ => None
+  end.
+Definition run_pr (q : rq5) (d : dview) : bool := qualifies (q_base q) (d_reg d).
+(* calling the permissive callable *)
+Definition call_pc (D : list (N * dview)) (tb : grants) (q : rq5) (lookup : text -> ctx -> trace * res) (c : ctx)
+    (cmp : component) : comp :=
+  match cmp with
+  | CView v => call_reg_permissive D tb q lookup v c
+  | CMulti m => mv_call_permissive D tb q lookup (get_views m (q_base q)) c
+  end.
+(* the harness's tween under the exception-view tween: logs what the main handler raised *)
+Definition with_raise_logger (c : comp) : comp := m_try c (fun e => ([Raised e], Raise e)).
+(* what the WSGI caller sees *)
+Definition finalize (x : comp) : trace * final :=
+  (fst x, match snd x with Ret t => Resp t | Raise e => Propagated e | _ => FStuck end).
+
+(* the whole request path, assembled from the REGENERATED pieces exactly as the code assembles them:
+   Router.invoke_request( excview_tween( <harness logger>( handle_request: _call_view ) ),
+                          _error_handler -> invoke_exception_view(exc_info) -> _call_view(exception view) );
+   keyword defaults (secure, reraise) are read from the signatures.  Proofs/C05_gen.v: gen_router = router_call. *)
+Section GenRouter.
+  Variable R : registry.
+  Variable D : list (N * dview).
+  Variable tb : grants.
+  Variable q : rq5.
+
+  Definition lookup5 : text -> ctx -> trace * res :=
+    fun n c' => call_view5 R D tb q (Nat.pred fuel0) view_classifier (q_wrap_sro q) n c'.
+
+  Definition gen_call_view_at (secure : bool) (cls : N) (req_sro : list N) (name : text) (c : ctx) : comp :=
+    gen_call_view (fun cmp => call_component5 D tb q lookup5 cmp c) (pc_of D) (pr_of D) (run_pr q)
+                  (call_pc D tb q lookup5 c)
+                  (fun _ => gen_find_views R req_sro (sro_of q c) name None (Some cls))
+                  secure (Some 0%N) 0%N.
+
+  Definition gen_router : trace * final :=
+    finalize
+      (gen_invoke_request
+         (gen_excview_tween
+            (with_raise_logger
+               (gen_handle_request_view
+                  (gen_call_view_at gen_default_secure_call_view view_classifier (q_main_sro q)
+                                    (q_view_name (q_base q)) (q_ctx q))))
+            (fun e =>
+               gen_error_handler
+                 (fun ei =>
+                    gen_invoke_exception_view
+                      (fun ex sec => gen_call_view_at sec exc_classifier (q_comb_sro q) [] (CExc ex))
+                      ei gen_default_secure_invoke_exception_view gen_default_reraise_invoke_exception_view)
+                 e))).
+End GenRouter.
+
+(* executable comparison of the regenerated program with the reference model on one input (they are PROVED equal in
+   Proofs/C05_gen.v; when that proof no longer goes through the run still says on which inputs they differ) *)
+Fixpoint trace_eqb (a b : trace) : bool :=
+  match a, b with
+  | [], [] => true
+  | x :: a', y :: b' => event_eqb x y && trace_eqb a' b'
+  | _, _ => false
+  end.
+Definition final_eqb (a b : final) : bool :=
+  match a, b with
+  | Resp x, Resp y => N.eqb x y
+  | Propagated x, Propagated y => exc_eqb x y
+  | FStuck, FStuck => true
+  | _, _ => false
+  end.
+Definition res_eqb (a b : res) : bool :=
+  match a, b with
+  | Ret x, Ret y => N.eqb x y
+  | Raise x, Raise y => exc_eqb x y
+  | NoView, NoView | Stuck, Stuck => true
+  | _, _ => false
+  end.
 
 (* ------------------------------------------------------------------ *)
 (* configuration *)
@@ -796,7 +847,8 @@ Definition put_dtab (prog : list stmt) (D : list (N * dview)) : val :=
                          put_operm (protected prog (stag rt) (CExc EBoom))]) D).
 
 (* case   = [0; irequest; ier; iwsgi; batches; grants; requests]
-   answer = [dtab; [[projected trace; projected final; judge mask of that observation; variant_okb] per request]]
+   answer = [dtab; [[projected trace; projected final; judge mask of that observation; variant_okb;
+             regenerated program = reference model on this input] per request]]
    judge  = [1; batches; [[trace; final] per request]]  ->  [mask per request]  (run on the implementation's log) *)
 Definition run_C05 (v : val) : val :=
   ret_or_bad (
@@ -812,14 +864,18 @@ Definition run_C05 (v : val) : val :=
                   VL (map (fun op =>
                              match op with
                              | OpRouter q =>
-                                 let '(tr, fin) := run_request s gs q in
+                                 let '(tr, fin) := run_request s gs q in                    (* the reference model *)
+                                 let '(gtr, gfin) := gen_router (cs_R s) (cs_D s) gs q in   (* the regenerated request path *)
                                  let tr' := proj_trace tr in
                                  let fin' := proj_final fin in
                                  VL [VL (map put_event tr'); put_final fin'; vN (judge prog (overridden_tags bs) tr' fin');
-                                     vbool (variant_okb prog tr)]
+                                     vbool (variant_okb prog tr); vbool (trace_eqb gtr tr && final_eqb gfin fin)]
                              | OpRender sec q =>            (* outside the property: correspondence only *)
                                  let '(tr, o) := run_render s gs sec q in
-                                 VL [VL (map put_event (proj_trace tr)); put_res o; vN 0%N; vbool true]
+                                 let '(gtr, go) := gen_call_view_at (cs_R s) (cs_D s) gs q sec view_classifier (q_wrap_sro q)
+                                                                    (q_view_name (q_base q)) (q_ctx q) in
+                                 VL [VL (map put_event (proj_trace tr)); put_res o; vN 0%N; vbool true;
+                                     vbool (trace_eqb gtr tr && res_eqb go o)]
                              end) rqs)])
     | VL [VI 1%Z; bs; obs] =>
         olet bs := get_list_of (get_list_of get_stmt) bs in
